@@ -16,6 +16,7 @@ fn main() {
     let a = util::Args::parse(&args[2..]);
     let r = match args[1].as_str() {
         "singleflight" => drivers::singleflight::run(&a),
+        "chunkcache" => drivers::chunkcache::run(&a),
         other => {
             eprintln!("unknown driver {other}");
             std::process::exit(2);
